@@ -248,10 +248,10 @@ theorem encBody_length (seqn : Nat) (es : List Entry) :
   simp only [List.length_cons, List.length_nil]
   omega
 
-/-- **round trip**: the reader on the blob of `(seqn, entries)` returns `seqn`, exactly `entries`, and ends at the END
-tag — for every sequence number, any number of honest entries -/
-theorem readAll_encode (seqn : Nat) (hs : seqn < 2 ^ 32) (es : List Entry) (hes : ∀ e ∈ es, e.Honest) :
-    ∃ res, readAll (encode seqn es).toArray = .ok res ∧ res.seqn = seqn ∧ res.entries = es ∧ res.ending = .ok () := by
+/-- the reader on the blob of `(seqn, entries)`: `new` succeeds with `seqn`, the loop returns the entries -/
+theorem reader_encode (seqn : Nat) (hs : seqn < 2 ^ 32) (es : List Entry) (hes : ∀ e ∈ es, e.Honest) :
+    ∃ r, Reader.new (encode seqn es).toArray = .ok r ∧ r.seqn = seqn ∧
+      Reader.readLoop ((encode seqn es).toArray.size + 1) r [] = (.ok es, es) := by
   have hmod := Builder.encode_length_mod seqn es
   have hlen : es.length + 6 ≤ (encode seqn es).length := by
     have := length_le_enc es
@@ -279,9 +279,18 @@ theorem readAll_encode (seqn : Nat) (hs : seqn < 2 ^ 32) (es : List Entry) (hes 
     rw [leNat_leBytes_of_lt (by omega)]
   have hloop := Reader.readLoop_enc es hes (r := { wal := file, offset := 5, seqn := seqn }) a3
     a2 (file.size + 1) (by omega) []
+  refine ⟨{ wal := file, offset := 5, seqn := seqn }, ?_, rfl, ?_⟩
+  · rw [← hfile, hnew]
+  · rw [← hfile, hloop]; rfl
+
+/-- **round trip**: the reader on the blob of `(seqn, entries)` returns `seqn`, exactly `entries`, and ends at the END
+tag — for every sequence number, any number of honest entries -/
+theorem readAll_encode (seqn : Nat) (hs : seqn < 2 ^ 32) (es : List Entry) (hes : ∀ e ∈ es, e.Honest) :
+    ∃ res, readAll (encode seqn es).toArray = .ok res ∧ res.seqn = seqn ∧ res.entries = es ∧ res.ending = .ok () := by
+  obtain ⟨r, h1, h2, h3⟩ := reader_encode seqn hs es hes
   refine ⟨{ seqn := seqn, entries := es, ending := .ok () }, ?_, rfl, rfl, rfl⟩
   unfold readAll
-  rw [← hfile, hnew]
-  simp only [hloop, List.reverse_nil, List.nil_append]
+  rw [h1]
+  simp only [h3, h2]
 
 end Nomt.Wal
